@@ -331,6 +331,16 @@ def handle : Handler
       match res with
       | .ok fs => some ("ok " ++ showFiles fs)
       | .error e => some ("err " ++ e.show)) "bad-args"
+  -- save_to_numpy_bundle into a folder that holds files already, then load_from_numpy_bundle (any listing order)
+  | "c18.bundle_roundtrip", [fs, ds] => some <| Option.getD (do
+      let fs ← files? fs
+      let ds ← dataset? ds
+      match Persist.saveBundle fs ds with
+      | .error e => some ("err " ++ e.show)
+      | .ok fs' =>
+        match Persist.loadBundle fs' with
+        | .ok d => some ("ok " ++ showDataset d)
+        | .error e => some ("err " ++ e.show)) "bad-args"
   | "c18.save_matrix", [sq, p] => some <| Option.getD (do
       let sq ← bool? sq
       let p ← p.toNat?
